@@ -16,33 +16,37 @@ From Twig Require Import Base.Bytes Base.SortPerm Model.Ast Model.Value Gen.MapR
   Model.Determ Model.DateFmt Spec.DetermSpec Proofs.DetermProofs Proofs.DetermGenProofs.
 Import ListNotations.
 
-(* same output for all permutation oracles: contexts whose maps have keys with pairwise different string
-   forms (every map[string]T and map[int]T), templates whose hash literals have pairwise different
-   literal keys (condition present only while HashNode.items is ranged as a Go map) *)
+(* same output for all permutation oracles. Contexts: every map has int or string keys, pairwise different as
+   Go keys; while filterMerge takes its keys unsorted from MapKeys() (flag dt_merge_filter_unsorted, re-read from
+   the tree) their string forms must be pairwise different as well, which every map[string]T and map[int]T
+   satisfies. Templates: no condition while hash literals are evaluated in source order (the flag
+   dt_hash_ranges_go_map is false on the current tree; were n.items ranged again, the literal keys of every hash
+   would have to be pairwise different) *)
 Theorem C03_oracle_independent : forall fu pi1 pi2 al ctx ns,
-  dt_env_ok false ctx -> Forall (dt_nok dt_hash_ranges_go_map) ns ->
+  dt_env_ok dt_merge_filter_unsorted false ctx -> Forall (dt_nok dt_hash_ranges_go_map) ns ->
   dt_render_now fu pi1 al ctx ns = dt_render_now fu pi2 al ctx ns.
 Proof. exact C03_oracle_independent_proof. Qed.
 
-(* same output for all address oracles as well, when the context holds no non-nil pointer and no func value *)
+(* same output for all address oracles as well, when the context holds no non-nil pointer and no func value
+   (top-level pointers are followed and funcs print nothing; what is left is fmt printing nested ones) *)
 Theorem C03_address_independent : forall fu pi1 pi2 al1 al2 ctx ns,
-  dt_env_ok true ctx -> Forall (dt_nok dt_hash_ranges_go_map) ns ->
+  dt_env_ok dt_merge_filter_unsorted true ctx -> Forall (dt_nok dt_hash_ranges_go_map) ns ->
   dt_render_now fu pi1 al1 ctx ns = dt_render_now fu pi2 al2 ctx ns.
 Proof. exact C03_address_independent_proof. Qed.
 
 (* maps equal as finite maps, listed in different entry orders at any depth (and the variables of the
    context itself in any order), give the same output *)
 Theorem C03_insertion_order_independent : forall fu pi al ctx ctx' ns,
-  dt_env_ok false ctx -> NoDup (map fst ctx) -> dt_env_veq ctx ctx' ->
+  dt_env_ok dt_merge_filter_unsorted false ctx -> NoDup (map fst ctx) -> dt_env_veq ctx ctx' ->
   dt_render_now fu pi al ctx ns = dt_render_now fu pi al ctx' ns.
 Proof. exact C03_insertion_order_independent_proof. Qed.
 
-(* with hash literals evaluated in source order (the proposed repair) the condition on templates disappears:
-   every template *)
-Theorem C03_oracle_independent_ordered_hash : forall fu pi1 pi2 al ctx ns,
-  dt_env_ok false ctx ->
-  dt_render_ctx false fu pi1 al ctx ns = dt_render_ctx false fu pi2 al ctx ns.
-Proof. exact C03_oracle_independent_ordered_hash_all_proof. Qed.
+(* with hash literals in source order and filterMerge iterating sorted keys (proposed repair) nothing is left:
+   every template, every context whose maps have int and string keys, including map[interface{}]T with 1 and the string 1 *)
+Theorem C03_oracle_independent_all_sorted : forall fu pi1 pi2 al ctx ns,
+  dt_env_ok false false ctx ->
+  dt_render_ctx false false fu pi1 al ctx ns = dt_render_ctx false false fu pi2 al ctx ns.
+Proof. exact C03_oracle_independent_all_sorted_proof. Qed.
 
 (* the oracle is exactly the set of iteration orders *)
 Theorem C03_oracle_covers_all_orders : forall (m : dentries),
@@ -53,28 +57,34 @@ Proof. exact C03_oracle_covers_all_orders_proof. Qed.
 Theorem C03_sort_perm_canonical : forall l l' : list bytes, Permutation l l' -> NoDup l -> bytes_sort l = bytes_sort l'.
 Proof. exact sort_perm_canonical. Qed.
 
-(* ---- what is still order- or address-dependent in the faithful model: witnesses ---- *)
-Theorem C03_hash_duplicate_key_refuted :
-  dt_render_ctx true 10 (dt_const_oracle [0; 0]) dt_al0 [] dt_w_hash_dup = Ok b#"2" /\
-  dt_render_ctx true 10 (dt_const_oracle [1; 0]) dt_al0 [] dt_w_hash_dup = Ok b#"1".
-Proof. exact C03_hash_duplicate_key_refuted_proof. Qed.
+(* sortedMapKeys with the tie-break by type name: one order whatever MapKeys() yields, also for keys with equal string forms *)
+Theorem C03_sorted_keys_canonical : forall p1 p2 (m : dentries),
+  Forall (fun kv => dt_is_key (fst kv) = true) m -> NoDup (map (fun kv => dt_key_code (fst kv)) m) ->
+  dt_sorted_entries p1 m = dt_sorted_entries p2 m.
+Proof. exact C03_sorted_keys_canonical_proof. Qed.
 
-Theorem C03_key_collision_refuted : forall gm,
-  dt_render_ctx gm 10 (dt_const_oracle [0; 0; 0]) dt_al0 dt_w_collide_ctx dt_w_collide_for = Ok b#"1=int;1=str;2=two;" /\
-  dt_render_ctx gm 10 (dt_const_oracle [2; 0; 0]) dt_al0 dt_w_collide_ctx dt_w_collide_for = Ok b#"1=str;1=int;2=two;".
-Proof. exact C03_key_collision_refuted_proof. Qed.
+(* ---- what is, or would be, order- or address-dependent: witnesses ---- *)
+(* ranging over HashNode.items again (gm = true) would make duplicate keys order dependent; source order does not *)
+Theorem C03_hash_map_order_refuted : forall mu,
+  dt_render_ctx true mu 10 (dt_const_oracle [0; 0]) dt_al0 [] dt_w_hash_dup = Ok b#"2" /\
+  dt_render_ctx true mu 10 (dt_const_oracle [1; 0]) dt_al0 [] dt_w_hash_dup = Ok b#"1" /\
+  dt_render_ctx false mu 10 (dt_const_oracle [1; 0]) dt_al0 [] dt_w_hash_dup = Ok b#"2".
+Proof. exact C03_hash_map_order_refuted_proof. Qed.
 
-Theorem C03_merge_function_collision_refuted : forall gm,
-  dt_render_ctx gm 10 (dt_const_oracle [0; 0; 0]) dt_al0 dt_w_collide_ctx dt_w_collide_merge = Ok b#"str" /\
-  dt_render_ctx gm 10 (dt_const_oracle [2; 0; 0]) dt_al0 dt_w_collide_ctx dt_w_collide_merge = Ok b#"int".
-Proof. exact C03_merge_function_collision_refuted_proof. Qed.
+(* filterMerge with unsorted keys (mu = true, the tree as it is) on a map holding 1 and the string 1; sorted keys repair it *)
+Theorem C03_merge_filter_collision_refuted : forall gm,
+  dt_render_ctx gm true 10 (dt_const_oracle [0; 0; 0]) dt_al0 dt_w_collide_ctx dt_w_collide_merge = Ok b#"str" /\
+  dt_render_ctx gm true 10 (dt_const_oracle [2; 0; 0]) dt_al0 dt_w_collide_ctx dt_w_collide_merge = Ok b#"int" /\
+  dt_render_ctx gm false 10 (dt_const_oracle [0; 0; 0]) dt_al0 dt_w_collide_ctx dt_w_collide_merge = Ok b#"str" /\
+  dt_render_ctx gm false 10 (dt_const_oracle [2; 0; 0]) dt_al0 dt_w_collide_ctx dt_w_collide_merge = Ok b#"str".
+Proof. exact C03_merge_filter_collision_refuted_proof. Qed.
 
-Theorem C03_address_refuted : forall gm,
-  dt_render_ctx gm 10 (dt_const_oracle []) dt_al0 [(b#"p", VPtr (Some (VInt 5)))] [NPrint (EVar b#"p")] = Ok b#"0xc000012345" /\
-  dt_render_ctx gm 10 (dt_const_oracle []) dt_al1 [(b#"p", VPtr (Some (VInt 5)))] [NPrint (EVar b#"p")] = Ok b#"0xc000067890" /\
-  dt_render_ctx gm 10 (dt_const_oracle []) dt_al0 [(b#"p", VOpaque 1)] [NPrint (EVar b#"p")] <>
-  dt_render_ctx gm 10 (dt_const_oracle []) dt_al1 [(b#"p", VOpaque 1)] [NPrint (EVar b#"p")].
-Proof. exact C03_address_refuted_proof. Qed.
+(* a pointer below the top level is printed as an address (known finding nested-pointer); at top level it is followed *)
+Theorem C03_nested_pointer_refuted : forall gm mu,
+  dt_render_ctx gm mu 10 (dt_const_oracle []) dt_al0 dt_w_nested_ptr [NPrint (EVar b#"s")] = Ok b#"{name 0xc000012345}" /\
+  dt_render_ctx gm mu 10 (dt_const_oracle []) dt_al1 dt_w_nested_ptr [NPrint (EVar b#"s")] = Ok b#"{name 0xc000067890}" /\
+  dt_render_ctx gm mu 10 (dt_const_oracle []) dt_al0 [(b#"p", VPtr (Some (VInt 5))); (b#"f", VOpaque 1)] [NPrint (EVar b#"p"); NPrint (EVar b#"f")] = Ok b#"5".
+Proof. exact C03_nested_pointer_refuted_proof. Qed.
 
 (* ---- date format conversion ---- *)
 Theorem C03_date_homomorphism : forall a b c,
@@ -123,19 +133,24 @@ Proof. vm_compute. reflexivity. Qed.
 Example C03_example_2 :
   dt_render_now 12 (dt_const_oracle [0; 3; 1; 1]) dt_al1 c03_ex_ctx' c03_ex_tpl = Ok b#"a:b:c:1=z,10=x,9=y,a|b|c|d|z".
 Proof. vm_compute. reflexivity. Qed.
+(* the map holding 1 and the string 1: one order under every oracle now (int before string) *)
+Example C03_example_collision :
+  dt_render_now 12 (dt_const_oracle [0; 0; 0]) dt_al0 dt_w_collide_ctx dt_w_collide_for = Ok b#"1=int;1=str;2=two;" /\
+  dt_render_now 12 (dt_const_oracle [2; 0; 0]) dt_al0 dt_w_collide_ctx dt_w_collide_for = Ok b#"1=int;1=str;2=two;".
+Proof. split; vm_compute; reflexivity. Qed.
 Example C03_example_date : date_conv b#"D, d M Y \a\t H:i" = b#"Mon, 02 Jan 2006 \pm\t 15:04".
 Proof. vm_compute. reflexivity. Qed.
 
 Print Assumptions C03_oracle_independent.
 Print Assumptions C03_address_independent.
 Print Assumptions C03_insertion_order_independent.
-Print Assumptions C03_oracle_independent_ordered_hash.
+Print Assumptions C03_oracle_independent_all_sorted.
 Print Assumptions C03_oracle_covers_all_orders.
 Print Assumptions C03_sort_perm_canonical.
-Print Assumptions C03_hash_duplicate_key_refuted.
-Print Assumptions C03_key_collision_refuted.
-Print Assumptions C03_merge_function_collision_refuted.
-Print Assumptions C03_address_refuted.
+Print Assumptions C03_sorted_keys_canonical.
+Print Assumptions C03_hash_map_order_refuted.
+Print Assumptions C03_merge_filter_collision_refuted.
+Print Assumptions C03_nested_pointer_refuted.
 Print Assumptions C03_date_homomorphism.
 Print Assumptions C03_date_table_functional.
 Print Assumptions C03_date_order_independent.
